@@ -1063,7 +1063,7 @@ func conform(env *symEnv, paths []symPath, spec []specRow) (viol []string, undec
 				for key, want := range row.State {
 					got, ok := p.State[key]
 					if !ok {
-						got = Val{Lin: linSym(strings.TrimPrefix(key, "."))}
+						got = Val{Lin: linSym(key)}
 					}
 					if got.Lin == nil {
 						viol = append(viol, fmt.Sprintf("%s state %s is not an integer form (%s)", where, key, got))
@@ -1107,3 +1107,11 @@ func ne(a, b *Lin) *F                    { return fCmp(token.NEQ, a, b) }
 func and(xs ...*F) *F                    { return fAndOf(xs...) }
 func or(xs ...*F) *F                     { return fOrOf(xs...) }
 func not(x *F) *F                        { return fNotOf(x) }
+
+// holdsOn reports whether formula f holds on every integer point of the path's
+// region (base && cube): (holds, decided).
+func holdsOn(env *symEnv, cube Cube, f *F) (bool, bool) {
+	all := append(append(Cube{}, env.base...), cube...)
+	sat, dec := satF(all, fNotOf(f))
+	return !sat && dec, dec
+}
